@@ -1,28 +1,18 @@
-(* build_matches_denotation, part 1: on the generics-free fragment, with distinct definition
-   names, the tree `transform` elaborates bottom-up (dependency order, archetype table, clones)
-   is exactly the tree the description denotes top-down ([den_node]). *)
+(* build_matches_denotation, part 1: with distinct definition names, the tree `transform`
+   elaborates bottom-up (dependency order, archetype table, clones, generic replacement loop) is
+   exactly the tree the description denotes top-down ([den_node]) -- generic definitions and their
+   instantiations included. *)
 From Coq Require Import List NArith Bool Lia Arith.
-From DesVerif Require Import Ndl.Bytes Ndl.BytesProps Ndl.Grammar Ndl.GrammarProps Ndl.Def Ndl.Transform Ndl.Order Ndl.Build Ndl.Denote.
+From DesVerif Require Import Ndl.Bytes Ndl.BytesProps Ndl.Grammar Ndl.GrammarProps Ndl.Def Ndl.Transform Ndl.Order Ndl.Subst Ndl.Build Ndl.Denote.
 Import ListNotations.
 Local Open Scope nat_scope.
 
-Definition gf_module (im : TypClause Generic * ModuleDef) : Prop :=
-  tc_args (fst im) = [] /\ forall st, In st (md_subs (snd im)) -> tc_args (snd st) = [].
-
-Lemma generics_free_spec : forall d, generics_free d = true -> forall im, In im (d_modules d) -> gf_module im.
-Proof.
-  intros d H im Him. unfold generics_free in H. rewrite forallb_forall in H. specialize (H im Him).
-  apply andb_true_iff in H as [H1 H2]. split.
-  - destruct (tc_args (fst im)); [reflexivity|discriminate].
-  - intros st Hst. rewrite forallb_forall in H2. specialize (H2 st Hst). destruct (tc_args (snd st)); [reflexivity|discriminate].
-Qed.
-
 Definition names (d : Def) : list ident := map (fun im => tc_ident (fst im)) (d_modules d).
 
-Lemma find_module_nodup : forall d im, NoDup (names d) -> In im (d_modules d) ->
-  find_module d (tc_ident (fst im)) = Some (snd im).
+Lemma find_entry_nodup : forall d im, NoDup (names d) -> In im (d_modules d) ->
+  find_entry d (tc_ident (fst im)) = Some im.
 Proof.
-  intros d im. unfold find_module, names. induction (d_modules d) as [|x l IH]; intros Hnd Hin; [destruct Hin|].
+  intros d im. unfold find_entry, names. induction (d_modules d) as [|x l IH]; intros Hnd Hin; [destruct Hin|].
   cbn [map] in Hnd. inversion Hnd as [|? ? Hx Hl]; subst. cbn [find].
   destruct Hin as [->|Hin].
   - rewrite beq_refl. reflexivity.
@@ -31,7 +21,34 @@ Proof.
     + apply IH; assumption.
 Qed.
 
-(* ---- den_node: more fuel, same tree; the root carries the definition's name ---- *)
+(* ---- more is known about the other definitions: same denotation ---- *)
+Definition below (look look' : ident -> option (Node * list Generic)) : Prop := forall k v, look k = Some v -> look' k = Some v.
+
+Lemma den_sigma_mono : forall look look' self_args reqs args sg, below look look' ->
+  den_sigma look self_args reqs args = Some sg -> den_sigma look' self_args reqs args = Some sg.
+Proof.
+  intros look look' self_args reqs. induction reqs as [|gb reqs IH]; intros args sg Hb H; cbn [den_sigma] in *; [exact H|].
+  destruct args as [|name args]; [discriminate|]. destruct (is_binding self_args name); [discriminate|].
+  destruct (look name) as [[repl deps]|] eqn:E1; [|discriminate]. destruct deps; [|discriminate].
+  destruct (look (g_bound gb)) as [[iface gi]|] eqn:E2; [|discriminate].
+  rewrite (Hb _ _ E1), (Hb _ _ E2). destruct (conform_to repl iface); [|discriminate].
+  destruct (den_sigma look self_args reqs args) as [sg0|] eqn:E3; [|discriminate].
+  rewrite (IH _ _ Hb E3). exact H.
+Qed.
+
+Lemma den_field_mono : forall look look' self_args st r, below look look' ->
+  den_field look self_args st = Some r -> den_field look' self_args st = Some r.
+Proof.
+  intros look look' self_args [field typ] r Hb H. unfold den_field in *.
+  destruct (kard_eqb _ _); [discriminate|]. destruct (tc_args typ) as [|a0 r0].
+  - destruct (look _) as [[n g]|] eqn:E; [|discriminate]. rewrite (Hb _ _ E). exact H.
+  - destruct (is_binding _ _); [discriminate|].
+    destruct (look (tc_ident typ)) as [[node reqs]|] eqn:E; [|discriminate]. rewrite (Hb _ _ E).
+    destruct (Nat.eqb _ _); [|discriminate].
+    destruct (den_sigma look self_args reqs (a0 :: r0)) as [sg|] eqn:Es; [|discriminate].
+    rewrite (den_sigma_mono _ _ _ _ _ _ Hb Es). exact H.
+Qed.
+
 Lemma map_opt_ext_some : forall {A B} (f g : A -> option B) l v,
   (forall a b, In a l -> f a = Some b -> g a = Some b) -> map_opt f l = Some v -> map_opt g l = Some v.
 Proof.
@@ -41,120 +58,132 @@ Proof.
   intros x y Hx. apply Hfg. right. exact Hx.
 Qed.
 
-Lemma den_node_mono : forall d f k n, den_node d f k = Some n -> den_node d (S f) k = Some n.
+Lemma den_node_mono : forall d f, below (den_node d f) (den_node d (S f)).
 Proof.
-  intros d f. induction f as [|f IH]; intros k n H; [discriminate|].
+  intros d f. induction f as [|f IH]; intros k v H; [discriminate|].
   cbn [den_node] in H. remember (S f) as f1. cbn [den_node]. subst f1.
-  destruct (find_module d k) as [m|]; [|discriminate].
+  destruct (find_entry d k) as [[self m]|]; [|discriminate].
+  destruct (_ || _); [discriminate|].
   destruct (map_opt _ (md_subs m)) as [subs_own|] eqn:Es; [|discriminate].
   erewrite map_opt_ext_some; [| |exact Es].
-  2:{ intros st b _ Hb. cbn beta in Hb. destruct (den_node d f (tc_ident (snd st))) as [x|] eqn:Ex; [|discriminate Hb].
-      rewrite (IH _ _ Ex). exact Hb. }
+  2:{ intros st b _ Hb. eapply den_field_mono; [exact IH|exact Hb]. }
   destruct (md_inherit m) as [p|].
-  - destruct (den_node d f p) as [parent|] eqn:Ep; [|discriminate]. rewrite (IH _ _ Ep). exact H.
+  - destruct (den_node d f p) as [[parent pg]|] eqn:Ep; [|discriminate]. rewrite (IH _ _ Ep). exact H.
   - exact H.
 Qed.
 
-Lemma den_node_mono_le : forall d f f' k n, f <= f' -> den_node d f k = Some n -> den_node d f' k = Some n.
-Proof. intros d f f' k n Hle H. induction Hle; [exact H|]. apply den_node_mono. assumption. Qed.
+Lemma den_node_mono_le : forall d f f', f <= f' -> below (den_node d f) (den_node d f').
+Proof. intros d f f' Hle. induction Hle; intros k v H; [exact H|]. apply den_node_mono. apply IHHle. exact H. Qed.
 
-Lemma den_node_typ : forall d f k n, den_node d f k = Some n -> n_typ n = k.
-Proof.
-  intros d [|f] k n H; [discriminate|]. cbn [den_node] in H.
-  destruct (find_module d k) as [m|]; [|discriminate].
-  destruct (map_opt _ _); [|discriminate].
-  destruct (match md_inherit m with Some p => _ | None => _ end); [|discriminate].
-  destruct (_ || _); [discriminate|]. destruct (transform_connections _ _ _ _ _); try discriminate.
-  injection H as <-. reflexivity.
-Qed.
-
-Lemma set_typ_same : forall n, set_typ n (n_typ n) = n.
-Proof. intros [t s g c]. reflexivity. Qed.
-
-(* ---- one definition: transform_module against the archetype table = den_node one level down ---- *)
+(* ---- one definition against the archetype table ---- *)
 Section OneModule.
-  Variables (d : Def) (fx : bool) (f : nat) (arch : archetypes).
-  Hypothesis Harch : forall k node gens, lookup k arch = Some (node, gens) -> gens = [] /\ den_node d f k = Some node.
+  Variables (d : Def) (look : ident -> option (Node * list Generic)) (arch : archetypes).
+  Hypothesis Harch : forall k v, lookup k arch = Some v -> look k = Some v.
 
-  Lemma submodules_match : forall self subs ss,
-    tc_args self = [] -> (forall st, In st subs -> tc_args (snd st) = []) ->
-    transform_submodules fx self subs arch = Ok ss ->
-    map_opt (fun st => option_map (fun n => (fst st, n)) (den_node d f (tc_ident (snd st)))) subs = Some ss /\
-    existsb (fun st => kard_eqb (fd_kard (fst st)) (Cluster 0)) subs = false.
+  Lemma sigma_matches : forall self_args reqs args node node',
+    length reqs = length args ->
+    replace_loop true self_args arch reqs args node = Ok node' ->
+    den_sigma look self_args reqs args = Some (sigma_of arch reqs args).
   Proof.
-    intros self subs. unfold transform_submodules. induction subs as [|st subs IH]; intros ss Hself Hgf H; cbn [collect] in H.
-    - injection H as <-. split; reflexivity.
-    - destruct (transform_submodule fx (fst st) self (snd st) arch) as [b| | |] eqn:Eb; cbn [bind] in H; try discriminate.
-      destruct (collect _ subs) as [bs| | |] eqn:Ec; cbn [bind] in H; try discriminate. injection H as <-.
-      destruct (IH bs Hself (fun x Hx => Hgf x (or_intror Hx)) eq_refl) as [IH1 IH2].
-      unfold transform_submodule in Eb. destruct (kard_eqb (fd_kard (fst st)) (Cluster 0)) eqn:Ez; [discriminate|].
-      rewrite (Hgf st (or_introl eq_refl)), Hself in Eb. cbn [inner_ty_to_outer_ty] in Eb.
-      destruct (lookup (tc_ident (snd st)) arch) as [[node reqs]|] eqn:El; [|discriminate].
-      destruct (Harch _ _ _ El) as [-> Hden]. injection Eb as <-.
-      cbn [map_opt existsb]. rewrite Hden, Ez, IH1, IH2. cbn [option_map orb].
-      rewrite <- (den_node_typ _ _ _ _ Hden), set_typ_same. split; reflexivity.
+    intros self_args reqs. induction reqs as [|gb reqs IH]; intros args node node' Hlen H; cbn [replace_loop den_sigma sigma_of] in *.
+    - reflexivity.
+    - destruct args as [|name args]; [discriminate|]. cbn [andb] in H.
+      destruct (is_binding self_args name); [discriminate|].
+      destruct (lookup name arch) as [[repl deps]|] eqn:E1; [|discriminate].
+      destruct deps; [|discriminate].
+      destruct (lookup (g_bound gb) arch) as [[iface gi]|] eqn:E2; [|discriminate].
+      rewrite (Harch _ _ E1), (Harch _ _ E2).
+      destruct (conform_to repl iface); cbn [negb] in H; [|discriminate].
+      assert (Hlen' : length reqs = length args) by (cbn [length] in Hlen; injection Hlen as Hl; exact Hl).
+      rewrite (IH _ _ _ Hlen' H). reflexivity.
   Qed.
 
-  Lemma module_matches : forall self m links n g,
-    tc_args self = [] -> (forall st, In st (md_subs m) -> tc_args (snd st) = []) ->
-    links = d_links d -> find_module d (tc_ident self) = Some m ->
-    transform_module fx self m arch links = Ok (n, g) ->
-    g = [] /\ den_node d (S f) (tc_ident self) = Some n.
+  Lemma field_matches : forall field self typ b,
+    transform_submodule true field self typ arch = Ok b -> den_field look (tc_args self) (field, typ) = Some b.
   Proof.
-    intros self m links n g Hself Hgf -> Hfind H. unfold transform_module in H. rewrite Hself in H. cbn [has_dup_binding] in H.
-    unfold transform_gates in H. destruct (existsb _ (md_gates m)) eqn:Eg; cbn [bind] in H; [discriminate|].
-    destruct (transform_submodules fx self (md_subs m) arch) as [ss| | |] eqn:Es; cbn [bind] in H; try discriminate.
-    destruct (submodules_match _ _ _ Hself Hgf Es) as [Hm Hz].
-    cbn [den_node]. rewrite Hfind, Hm.
-    destruct (md_inherit m) as [p|].
-    - destruct (lookup p arch) as [[parent pg]|] eqn:Ep; cbn [bind] in H; [|discriminate].
-      destruct (Harch _ _ _ Ep) as [_ Hden]. rewrite Hden, Eg, Hz. cbn [orb].
-      destruct (fx && has_dup_field _); [discriminate|].
-      destruct (transform_connections _ _ _ _ _) as [cs| | |]; cbn [bind] in H; try discriminate.
-      injection H as <- <-. split; reflexivity.
-    - cbn [bind] in H. destruct (fx && has_dup_field _); [discriminate|]. rewrite Eg, Hz. cbn [orb n_gates n_subs n_conns].
-      replace (set_extend (set_extend [] (md_gates m)) []) with (set_extend [] (md_gates m)) by reflexivity.
-      rewrite app_nil_r.
-      destruct (transform_connections _ _ _ _ _) as [cs| | |]; cbn [bind] in H; try discriminate.
-      injection H as <- <-. split; reflexivity.
+    intros field self typ b H. unfold transform_submodule in H. unfold den_field.
+    destruct (kard_eqb _ _); [discriminate|]. destruct (tc_args typ) as [|a0 r0] eqn:Eargs.
+    - destruct (lookup _ arch) as [[node reqs]|] eqn:El; [|discriminate]. rewrite (Harch _ _ El).
+      destruct reqs; [|discriminate]. injection H as <-. reflexivity.
+    - cbn [andb] in H. destruct (is_binding _ _); [discriminate|].
+      destruct (lookup (tc_ident typ) arch) as [[node reqs]|] eqn:El; [|discriminate]. rewrite (Harch _ _ El).
+      destruct (Nat.eqb (length reqs) (length (a0 :: r0))) eqn:Elen; cbn [negb] in H; [|discriminate].
+      destruct (replace_loop true (tc_args self) arch reqs (a0 :: r0) node) as [node'| | |] eqn:Er; cbn [bind] in H; try discriminate.
+      injection H as <-. apply Nat.eqb_eq in Elen.
+      rewrite (sigma_matches _ _ _ _ _ Elen Er). rewrite (replace_loop_substitutes_every_field _ _ _ _ _ _ _ Er). reflexivity.
+  Qed.
+
+  Lemma submodules_match : forall self subs ss,
+    transform_submodules true self subs arch = Ok ss -> map_opt (den_field look (tc_args self)) subs = Some ss.
+  Proof.
+    intros self subs. unfold transform_submodules. induction subs as [|st subs IH]; intros ss H; cbn [collect] in H.
+    - injection H as <-. reflexivity.
+    - destruct (transform_submodule true (fst st) self (snd st) arch) as [b| | |] eqn:Eb; cbn [bind] in H; try discriminate.
+      destruct (collect _ subs) as [bs| | |] eqn:Ec; cbn [bind] in H; try discriminate. injection H as <-.
+      cbn [map_opt]. destruct st as [field typ]. cbn [fst snd] in Eb. rewrite (field_matches _ _ _ _ Eb), (IH bs eq_refl). reflexivity.
   Qed.
 End OneModule.
 
-(* ---- the elaboration loop ---- *)
-Lemma elaborate_matches : forall d fx l arch arch' f,
-  NoDup (names d) -> (forall im, In im (d_modules d) -> gf_module im) ->
-  (forall e, In e l -> In (fst e) (d_modules d)) ->
-  (forall k node gens, lookup k arch = Some (node, gens) -> gens = [] /\ den_node d f k = Some node) ->
-  elaborate fx l arch (d_links d) = Ok arch' ->
-  forall k node gens, lookup k arch' = Some (node, gens) -> gens = [] /\ den_node d (f + length l) k = Some node.
+Lemma module_matches : forall d f arch self m n g,
+  (forall k v, lookup k arch = Some v -> den_node d f k = Some v) ->
+  find_entry d (tc_ident self) = Some (self, m) ->
+  transform_module true self m arch (d_links d) = Ok (n, g) ->
+  den_node d (S f) (tc_ident self) = Some (n, g).
 Proof.
-  intros d fx l. induction l as [|e l IH]; intros arch arch' f Hnd Hgf Hin Harch H k node gens Hk; cbn [elaborate] in H.
-  - injection H as <-. cbn [length]. rewrite Nat.add_0_r. exact (Harch _ _ _ Hk).
-  - destruct (transform_module fx (fst (fst e)) (snd (fst e)) arch (d_links d)) as [[n g]| | |] eqn:Em; cbn [bind] in H; try discriminate.
-    assert (Hmem : In (fst e) (d_modules d)) by (apply Hin; left; reflexivity).
-    destruct (Hgf _ Hmem) as [Hself Hsubs].
-    destruct (module_matches d fx f arch Harch _ _ _ _ _ Hself Hsubs eq_refl (find_module_nodup d (fst e) Hnd Hmem) Em) as [-> Hden].
-    cbn [length]. replace (f + S (length l)) with (S f + length l) by lia.
-    apply (IH ((e_ident e, (n, [])) :: arch) arch' (S f) Hnd Hgf); [intros x Hx; apply Hin; right; exact Hx| |exact H|exact Hk].
-    intros k0 node0 gens0 H0. cbn [lookup] in H0. destruct (beq k0 (e_ident e)) eqn:Eb.
-    + apply beq_eq in Eb. subst k0. injection H0 as <- <-. split; [reflexivity|exact Hden].
-    + destruct (Harch _ _ _ H0) as [-> Hd0]. split; [reflexivity|]. apply den_node_mono. exact Hd0.
+  intros d f arch self m n g Harch Hfind H. unfold transform_module in H. cbn [den_node]. rewrite Hfind.
+  destruct (has_dup_binding (tc_args self)); [discriminate|]. cbn [orb].
+  unfold transform_gates in H. destruct (existsb _ (md_gates m)) eqn:Eg; cbn [bind] in H; [discriminate|].
+  destruct (transform_submodules true self (md_subs m) arch) as [ss| | |] eqn:Es; cbn [bind] in H; try discriminate.
+  rewrite (submodules_match (den_node d f) arch Harch _ _ _ Es).
+  destruct (md_inherit m) as [p|].
+  - destruct (lookup p arch) as [[parent pg]|] eqn:Ep; cbn [bind] in H; [|discriminate].
+    rewrite (Harch _ _ Ep). cbn [andb] in H. destruct (has_dup_field _); [discriminate|].
+    destruct (transform_connections _ _ _ _ _) as [cs| | |]; cbn [bind] in H; try discriminate.
+    injection H as <- <-. reflexivity.
+  - cbn [bind andb] in H. cbn [n_gates n_subs n_conns].
+    replace (set_extend (set_extend [] (md_gates m)) []) with (set_extend [] (md_gates m)) by reflexivity.
+    rewrite app_nil_r. destruct (has_dup_field ss); [discriminate|].
+    destruct (transform_connections _ _ _ _ _) as [cs| | |]; cbn [bind] in H; try discriminate.
+    injection H as <- <-. reflexivity.
 Qed.
 
-Theorem transform_is_denotation : forall fx d n,
-  generics_free d = true -> NoDup (names d) -> transform fx d = Ok n -> denote_tree d = Some n.
+(* ---- the elaboration loop ---- *)
+Lemma elaborate_matches : forall d l arch arch' f,
+  NoDup (names d) -> (forall e, In e l -> In (fst e) (d_modules d)) ->
+  (forall k v, lookup k arch = Some v -> den_node d f k = Some v) ->
+  elaborate true l arch (d_links d) = Ok arch' ->
+  forall k v, lookup k arch' = Some v -> den_node d (f + length l) k = Some v.
 Proof.
-  intros fx d n Hgf Hnd H. unfold denote_tree. rewrite Hgf. unfold transform in H.
+  intros d l. induction l as [|e l IH]; intros arch arch' f Hnd Hin Harch H k v Hk; cbn [elaborate] in H.
+  - injection H as <-. cbn [length]. rewrite Nat.add_0_r. exact (Harch _ _ Hk).
+  - destruct (transform_module true (fst (fst e)) (snd (fst e)) arch (d_links d)) as [[n g]| | |] eqn:Em; cbn [bind] in H; try discriminate.
+    assert (Hmem : In (fst e) (d_modules d)) by (apply Hin; left; reflexivity).
+    pose proof (find_entry_nodup d (fst e) Hnd Hmem) as Hfind.
+    destruct (fst e) as [self m] eqn:Efe. cbn [fst snd] in *.
+    pose proof (module_matches d f arch self m n g Harch Hfind Em) as Hden.
+    cbn [length]. replace (f + S (length l)) with (S f + length l) by lia.
+    apply (IH ((e_ident e, (n, g)) :: arch) arch' (S f) Hnd); [intros x Hx; apply Hin; right; exact Hx| |exact H|exact Hk].
+    intros k0 v0 H0. cbn [lookup] in H0. destruct (beq k0 (e_ident e)) eqn:Eb.
+    + apply beq_eq in Eb. subst k0. injection H0 as <-. unfold e_ident. rewrite Efe. exact Hden.
+    + apply den_node_mono. exact (Harch _ _ H0).
+Qed.
+
+Theorem transform_is_denotation : forall d n,
+  NoDup (names d) -> transform true d = Ok n -> denote_tree d = Some n.
+Proof.
+  intros d n Hnd H. unfold denote_tree. unfold transform in H.
   pose proof (order_loop_spec (S (length (d_modules d))) [] (entries d) []) as Ho.
   assert (Hlen : length (entries d) < S (length (d_modules d))) by (unfold entries; rewrite map_length; lia).
   specialize (Ho Hlen).
   destruct (order_loop _ [] (entries d) []) as [ordered| | |] eqn:Eo; cbn [bind] in H; try discriminate.
   apply order_loop_length in Eo. cbn [length] in Eo.
   destruct Ho as (l' & -> & _ & Hin). cbn [rev app] in H, Eo.
-  destruct (elaborate fx l' [] (d_links d)) as [arch| | |] eqn:Ee; cbn [bind] in H; try discriminate.
+  destruct (elaborate true l' [] (d_links d)) as [arch| | |] eqn:Ee; cbn [bind] in H; try discriminate.
   destruct (lookup (d_entry d) arch) as [[n' g]|] eqn:El; [|discriminate]. injection H as <-.
-  pose proof (elaborate_matches d fx l' [] arch 0 Hnd (generics_free_spec d Hgf)) as Hm.
-  destruct (Hm ltac:(intros e He; apply Hin in He; unfold entries in He; apply in_map_iff in He as (im & <- & Him); exact Him)
-               ltac:(intros k node gens Hk; discriminate Hk) Ee _ _ _ El) as [_ Hden].
-  eapply den_node_mono_le; [|exact Hden]. unfold entries in Eo. rewrite map_length in Eo. unfold entry in *. lia.
+  pose proof (elaborate_matches d l' [] arch 0 Hnd) as Hm.
+  pose proof (Hm ltac:(intros e He; apply Hin in He; unfold entries in He; apply in_map_iff in He as (im & <- & Him); exact Him)
+               ltac:(intros k v Hk; discriminate Hk) Ee _ _ El) as Hden.
+  assert (Hle : 0 + length l' <= S (length (d_modules d))).
+  { unfold entries in Eo. rewrite map_length in Eo. unfold entry in *. lia. }
+  rewrite (den_node_mono_le d _ _ Hle _ _ Hden). reflexivity.
 Qed.
